@@ -94,7 +94,7 @@ Qed.
 Definition toff_rule (im : img V) (o : option nat) (name : string) : res Q :=
   if String.eqb name "t" && negb (forallb is0 (skipn 3 (trn im)))
   then match o with None => Err EToffset | Some oo => Ok (nth oo (trn im) 0%Q) end
-  else Ok (meta_toffset im).
+  else Ok 0%Q.
 
 Definition pixdims_of (im : img V) : res (list Q) :=
   col_norms (map (fun j => column 0%Q j (nsp_block (lin im))) (seq 0 (length (inn im) - 3))).
@@ -287,6 +287,91 @@ Proof.
         rewrite skipn_all2 by (rewrite in_names3_length; lia). reflexivity.
       * rewrite skipn_app, (proj2 (Nat.sub_0_le _ _)) by (rewrite space_names_length; lia).
         rewrite skipn_all2 by (rewrite space_names_length; lia). reflexivity.
+Qed.
+
+
+(* ---------------------------------------------------------------- no crash path, time offset *)
+Lemma col_norm_err c e : col_norm c = Err e -> e = EOutside.
+Proof.
+  unfold col_norm. destruct (filter (fun a => negb (is0 a)) c) as [|a [|b r]]; intros H; try discriminate H.
+  now inversion H.
+Qed.
+Lemma col_norms_err cols e : col_norms cols = Err e -> e = EOutside.
+Proof.
+  induction cols as [|c r IH]; simpl; [discriminate|].
+  destruct (col_norm c) as [a|e1] eqn:Ea; simpl.
+  - destruct (col_norms r) as [l|e2] eqn:El; simpl; [discriminate|].
+    intros H. inversion H; subst. now apply IH.
+  - intros H. inversion H; subst. now apply col_norm_err in Ea.
+Qed.
+Lemma space_label_err strict out3 xa shape e :
+  space_label strict out3 xa shape = Err e -> e = EWorld \/ e = EUnknownAffine.
+Proof.
+  unfold space_label. destruct (find _ xform2space); [discriminate|].
+  destruct (negb strict && strl_eqb out3 plain_xyz); [discriminate|].
+  destruct (negb (in_space out3 "unknown")); [intros H; inversion H; now left|].
+  destruct (base_affine_ok xa shape); [discriminate|]. intros H; inversion H; now right.
+Qed.
+Lemma find_time_like_err fix0 O (im : img V) e :
+  find_time_like V fix0 O im = Err e -> e = ETimeMismatch \/ e = ETimeCross \/ e = EOutside.
+Proof.
+  unfold find_time_like. intros H.
+  pose proof (ftl_loop_spec time_like_ordered (map canon (skipn 3 (inn im))) (map canon (skipn 3 (outn im)))
+                            (O (if fix0 then fix0_mat (lin im) else lin im))) as S.
+  now rewrite H in S.
+Qed.
+
+(* every refusal of the conversion after as_xyz is a NiftiError kind (or "outside the model"):
+   there is no path to a Python TypeError any more *)
+Lemma n2n_xyz_errors strict fix0 O (im : img V) e :
+  nipy2nifti_xyz V strict fix0 O im = Err e ->
+  In e [ESpaceCoupled; ENsCoupled; EWorld; EUnknownAffine; ETooMany; ETimeMismatch; ETimeCross; EToffset; EOutside].
+Proof.
+  intros H. unfold nipy2nifti_xyz in H; cbv zeta in H.
+  match type of H with context [space_orthogonal ?L] => destruct (space_orthogonal L) end;
+    cbn [negb] in H; [|inversion H; simpl; tauto].
+  match type of H with context [ns_orthogonal ?L ?n] => destruct (ns_orthogonal L n) end;
+    cbn [negb] in H; [|inversion H; simpl; tauto].
+  match type of H with context [xyz_affine ?a ?b ?c ?d] => destruct (xyz_affine a b c d) as [xa|] end;
+    [|inversion H; simpl; tauto].
+  match type of H with context [space_label ?a ?b ?c ?d] => destruct (space_label a b c d) as [label|e1] eqn:Esl end;
+    cbn [bind] in H; [|inversion H; subst; apply space_label_err in Esl; destruct Esl; subst; simpl; tauto].
+  destruct (Nat.eqb (length (inn im) - 3) 0); [discriminate H|].
+  destruct (Nat.ltb max_ns (length (inn im) - 3)); [inversion H; simpl; tauto|].
+  match type of H with context [col_norms ?c] => destruct (col_norms c) as [pix|e1] eqn:Epix end;
+    cbn [bind] in H; [|inversion H; subst; apply col_norms_err in Epix; subst; simpl; tauto].
+  destruct (find_time_like V fix0 O im) as [[[[i o] name]|]|e1] eqn:Eftl; cbn [bind] in H.
+  - fold (toff_rule im o name) in H.
+    destruct (toff_rule im o name) as [toff|e1] eqn:Etoff; cbn [bind] in H.
+    + destruct (Nat.eqb i 3); [discriminate H|]. destruct (Nat.ltb i 3); [|discriminate H].
+      inversion H; simpl; tauto.
+    + inversion H; subst. unfold toff_rule in Etoff.
+      destruct (String.eqb name "t" && negb (forallb is0 (skipn 3 (trn im)))); [|discriminate Etoff].
+      destruct o; [discriminate Etoff|]. inversion Etoff. simpl; tauto.
+  - destruct (Nat.eqb (length (inn im) - 3) full_ns); [|discriminate H]. inversion H; simpl; tauto.
+  - inversion H; subst. apply find_time_like_err in Eftl. destruct Eftl as [E|[E|E]]; subst; simpl; tauto.
+Qed.
+
+(* the time offset written for a 't' axis is the translation of its output coordinate - whatever
+   toffset the image's old header carried *)
+Lemma toff_rule_spec (im : img V) o toff :
+  toff_rule im o "t" = Ok toff ->
+  match o with
+  | Some oo => 3 <= oo -> (toff == nth oo (trn im) 0%Q)%Q
+  | None => forallb is0 (skipn 3 (trn im)) = true /\ toff = 0%Q
+  end.
+Proof.
+  unfold toff_rule. rewrite String.eqb_refl. cbn [andb].
+  destruct (forallb is0 (skipn 3 (trn im))) eqn:Ez; cbn [negb].
+  - intros H. inversion H; subst. destruct o as [oo|]; [|auto].
+    intros Hoo. rewrite forallb_forall in Ez.
+    assert (Hsk : forall (l : list Q) k, nth (3 + k) l 0%Q = nth k (skipn 3 l) 0%Q).
+    { intros l k. destruct l as [|a [|b [|c r]]]; simpl; try reflexivity; now destruct k. }
+    replace oo with (3 + (oo - 3)) by lia. rewrite Hsk.
+    destruct (Nat.lt_ge_cases (oo - 3) (length (skipn 3 (trn im)))) as [Hl|Hl].
+    + specialize (Ez _ (nth_In _ 0%Q Hl)). unfold is0 in Ez. apply Qeq_bool_eq in Ez. now rewrite Ez.
+    + rewrite nth_overflow by exact Hl. reflexivity.
+  - destruct o as [oo|]; [|discriminate]. intros H. inversion H. intros _. reflexivity.
 Qed.
 
 (* ---------------------------------------------------------------- refusals *)
